@@ -3,7 +3,7 @@ Coq case terms."""
 import vlib
 
 
-def run_sessions(sessions, want_cs=False, nostck=False, timeout_ms=10000):
+def run_sessions(sessions, want_cs=False, nostck=False, timeout_ms=4000):
     cases = [{"stmts": s, "want_cs": want_cs, "nostck": nostck, "timeout_ms": timeout_ms} for s in sessions]
     return vlib.run_harness("session", cases, timeout=3600)
 
@@ -69,6 +69,10 @@ def session_case_term(res):
             ";".join(str(c) for c in (st.get("counters") or []))))
         if st.get("panic"):
             break
+    if res.get("hang") and res.get("inflight"):
+        trees = res["inflight"]
+        items.append("{| g_trees := [%s]; g_results := [%s]; g_out := \"\"; g_counters := [] |}" % (
+            ";".join(trees), ";".join(["GValue VNil"] * (len(trees) - 1) + ["GHang"])))
     return "[" + ";\n ".join(items) + "]"
 
 
